@@ -9,6 +9,7 @@ import SlipVerif.Driver.Util
      print frame <payload length>                                        →  ok <6 header characters>
      print read <read-base> <hex utf-8 text>                             →  ok <term word>* | err <class>
    term words:  n | t | i:<dec> | r:<num>/<den> | s:<hex> | y:<hex> | c:<codepoint>
+              | f:<s|d|l>:<0|1 negative>:<decimal digits or ->:<exponent>
               | ( <term>* [. <term>] ) | v( <term>* ) | a:<rank> <term>          -/
 namespace SlipVerif.Driver.Printer
 open SlipVerif.Printer SlipVerif.Driver
@@ -54,6 +55,13 @@ mutual
         | ["c", v] => do
           let n ← v.toNat?
           if n.isValidChar then some (.chr (Char.ofNat n), ws) else none
+        | ["f", k, ng, ds, e] => do
+          let fmt ← match k with
+            | "s" => some FFmt.single | "d" => some FFmt.double | "l" => some FFmt.long
+            | _ => none
+          let ex ← e.toInt?
+          let digits := if ds == "-" then [] else ds.toList.map (fun c => c.toNat - 48)
+          if digits.all (· < 10) then some (.flt fmt (ng == "1") digits ex, ws) else none
         | ["a", v] => do
           let rank ← v.toNat?
           let (contents, rest) ← parseTerm fuel ws
@@ -77,6 +85,12 @@ end
 
 def hexText (cs : List Char) : String := hexString (String.ofList cs)
 
+def showFloat (f : FFmt) (neg : Bool) (ds : List Nat) (e : Int) : String :=
+  let k := match f with
+    | .single => "s" | .double => "d" | .long => "l"
+  let digits := if ds.isEmpty then "-" else String.ofList (ds.map digitChar)
+  s!"f:{k}:{if neg then "1" else "0"}:{digits}:{e}"
+
 mutual
   def showTerm : Obj → List String
     | .nil => ["n"]
@@ -86,6 +100,7 @@ mutual
     | .str s => ["s:" ++ hexText s]
     | .chr c => [s!"c:{c.toNat}"]
     | .sym s => ["y:" ++ hexText s]
+    | .flt f neg ds e => [showFloat f neg ds e]
     | .cons a d => "(" :: showTerm a ++ showTail d
     | .vec elems => "v(" :: showTail elems
     | .arr r c => s!"a:{r}" :: showTerm c
@@ -98,6 +113,7 @@ mutual
     | .str s => [".", "s:" ++ hexText s, ")"]
     | .chr c => [".", s!"c:{c.toNat}", ")"]
     | .sym s => [".", "y:" ++ hexText s, ")"]
+    | .flt f neg ds e => [".", showFloat f neg ds e, ")"]
     | .vec elems => "." :: "v(" :: showTail elems ++ [")"]
     | .arr r c => "." :: s!"a:{r}" :: showTerm c ++ [")"]
 end
